@@ -46,6 +46,28 @@ CHECKS = {
  "C16": ("exploration", "sanitizer build + result-record invariant monitor, default and EAV_EXTRA builds",
          "Flags/rc/lpart/domain of every result record (high- and low-level API, 4 modes, tld off/on) checked against the form of the domain and the composition verdict, in two builds.",
          "'syntactically invalid' = composition of per-part validators rejects with tld off.", "DESIGN.md 4/C16"),
+
+ "C06": ("exploration", "ASan+UBSan+LSan builds, guard-page/read-only placement, valgrind memcheck on uninitialised eav_t, allocation ledger via sanitizer malloc hooks, callgrind instruction-count cost clock, libFuzzer (thorough)",
+         "Every public entry point is driven on structural byte sweeps, the address corpus, 64 KiB-256 KiB adversarial families and random bytes under five independent instruments; any sanitizer report, fault at a guard page, memcheck error, ledger imbalance, abort or super-linear instruction growth is a violation.",
+         "evidence on reached paths only; intra-object overflows and libidn2 internals are not seen; allocation failure excluded by the statement.", "DESIGN.md 4/C06"),
+ "C13": ("exploration", "history runner with fresh-object differential + allocation ledger (sanitizer malloc hooks) under ASan/LSan",
+         "All op sequences to length 4/5(6 pruned) and random histories to length 200 on one eav_t; after every eav_is_email a fresh object with the model's settings must give the identical observation (return, code, message, result fields); ledger: previous result released by the next call, nothing live after eav_free.",
+         "10-line sequential model of (confirmed mode, tld_check, allow_tld); errstr after a failed setup is judged by C15.", "DESIGN.md 4/C13"),
+ "C14": ("exploration", "ThreadSanitizer + helgrind/drd race detection on a stress runner, with sequential-outcome comparison and measured call overlap",
+         "2-16 threads x thousands of calls on 16 shared read-only strings, 13 call kinds, yield/sleep perturbation, several seeds; every outcome compared with a sequential reference; overlapping call pairs measured from per-call clock intervals.",
+         "happens-before detection covers the executed partial orders; libidn2 is uninstrumented (helgrind/drd see it, TSan does not).", "DESIGN.md 4/C14"),
+ "C17": ("exploration", "differential monitor across the 8 option builds (12 edges of the option cube) + Makefile dry runs",
+         "Same bounded-exhaustive local parts / domains and the address corpus through all 8 builds; documented relation checked along every edge; default Makefile flags read from make -n.",
+         "RFC6531_FOLLOW_RFC5322 is specified for pure-ASCII local parts only.", "DESIGN.md 4/C17"),
+ "C18": ("exploration", "differential monitor across the three back-end source sets built against adapters + context create/destroy ledger",
+         "partial/idn2, partial/idn, partial/idnkit compiled against adapters onto the same libidn2 converter; identical records demanded on the address corpus, the complete policy enumeration and C13 histories; idnkit context ledger (creates == destroys, no use after destroy, no double destroy) after every history.",
+         "real libidn/idnkit absent: 'given equivalent IDN conversions' is realised by the adapters.", "DESIGN.md 4/C18"),
+ "C19": ("fault_enumeration", "link-time fault injection (--wrap=idn2_to_ascii_8z) with ledger and fresh-object reference",
+         "Every libidn2 return code (+2 unknown) x with/without leftover buffer injected at every conversion position of runs of validations, plus random multi-fault histories; faulted call must be contained, every other call must equal the fault-free outcome, ledger/LSan must balance.",
+         "faults injected at the library boundary only (idn2_to_ascii_8z).", "DESIGN.md 4/C19"),
+ "C20": ("exploration", "ASan+UBSan build of the tool as shipped (shared link) on generated files, monitored against a trimming model + the library's own verdicts",
+         "300 (quick) / 5000 (thorough) files of hostile line shapes; exit status, sanitizer silence, one verdict per non-comment line in order, verdict/message equality with the stand-alone library, echo for clean UTF-8 lines, stderr tally.",
+         "echo compared only for well-formed control-free lines.", "DESIGN.md 4/C20"),
 }
 TODO_REASON = "check not built yet in this round (planned, see DESIGN.md section 4); no claim is made"
 
